@@ -485,6 +485,17 @@ impl Node {
     pub fn view(&self) -> NodeView {
         with_mdk!(self.mdk(), m => node_view(m))
     }
+    /// View of a copy of this node's database directory (SQLite backends), opened on its own.
+    pub fn view_of_image(&self, image: &Path) -> Option<NodeView> {
+        let path = image.join("mdk.sqlite");
+        let st = match self.cfg.backend {
+            BackendKind::Sqlite => MdkSqliteStorage::new_unencrypted(path).ok()?,
+            BackendKind::SqliteCipher => MdkSqliteStorage::new_with_key(path, EncryptionConfig::new(self.db_key)).ok()?,
+            BackendKind::Memory => return None,
+        };
+        let mdk = MDK::builder(st).with_config(self.cfg.mdk_config()).build();
+        Some(node_view(&mdk))
+    }
     pub fn group_view(&self, gid: &GroupId) -> GroupView {
         with_mdk!(self.mdk(), m => group_view(m, gid))
     }
